@@ -65,6 +65,9 @@ func main() {
 	if p := concurrentCases(run); p != nil { // explored by checks/c13conc on the scheduler engine, just before
 		parts = append(parts, p)
 	}
+	if p := managerCases(run); p != nil { // explored by the checks/c15 program running as a part of C13, just before
+		parts = append(parts, p)
+	}
 	finish(run, parts)
 }
 
@@ -152,6 +155,33 @@ func parallelConfigs(n int, deadline time.Time, fn func(i int)) (done int) {
 	}
 	wg.Wait()
 	return next
+}
+
+// managerCases folds in the manager part: the hashed and three-endpoint histories of checks/c15 on the real
+// endpoint manager (endpoints blocked, recovering, registry re-weighting), where every call must go to an
+// endpoint that is in rotation and where selectors built over the endpoints in rotation send it.
+func managerCases(run *common.Run) *part {
+	b, err := os.ReadFile(filepath.Join(common.Root(), "evidence", "C13.e2e.json"))
+	if err != nil {
+		return nil
+	}
+	var ev struct {
+		Tier     string         `json:"tier"`
+		Coverage map[string]any `json:"coverage"`
+		Assume   []string       `json:"assumptions"`
+	}
+	if json.Unmarshal(b, &ev) != nil || ev.Tier != run.Tier {
+		return nil
+	}
+	num := func(k string) int64 {
+		f, _ := ev.Coverage[k].(float64)
+		return int64(f)
+	}
+	ex, _ := ev.Coverage["exhaustive"].(bool)
+	return &part{Name: "manager (what the endpoint manager hands to its selectors; scheduler engine)", States: num("states"), Transitions: num("transitions"),
+		Traces: num("executions"), Evaluations: num("executions"), NonTrivial: num("distinct_nontrivial"), Exhaustive: ex,
+		Rule:        "event histories with hashed calls replayed on the real endpoint manager: every call goes to an endpoint in rotation and where selectors built directly over the endpoints in rotation send it",
+		Assumptions: ev.Assume}
 }
 
 // concurrentCases folds in what the concurrent part (checks/c13conc, run by
